@@ -384,6 +384,60 @@ def run(loader, R, tier):
                                     fmt(Counter(dict(ordered[0][0])))))
     R.floor("exact leaf classes compared across evaluators", nleaf, 2)
 
+    # R12.7: a machine-word read of an Integer is guarded by the fits-test
+    # of the same signedness (mp_fits_ulong_p <-> mp_get_ui, mp_fits_slong_p
+    # <-> mp_get_si); a mismatch truncates or flips the top bit
+    R.rule("R12.7", "mp_get_si / mp_get_ui are guarded by the fits-test of "
+                    "the same signedness")
+    from selib import sym as _sym7
+    PAIR = {"mp_get_si": "mp_fits_slong_p", "mp_get_ui": "mp_fits_ulong_p"}
+    n7 = 0
+    n7ctl = 0
+    for u, f in sorted(prog.functions.items(), key=lambda kv: kv[1]["qn"]):
+        control = f["qn"].startswith("verif_positive::")
+        cls = f.get("cls") or ""
+        if not f.get("body") or f.get("dependent") or not (
+                control or "EvalDouble" in cls or "LambdaDouble" in cls
+                or "EvalRealDouble" in cls or "EvalComplexDouble" in cls
+                or f["n"] == "init_eval_double"):
+            continue
+
+        def cb7(n, guards, line, f=f, control=control):
+            nonlocal n7, n7ctl
+            if not (n.get("k") == "call" and n.get("n") in PAIR
+                    and n.get("a")):
+                return
+            arg = show(n["a"][0])
+            fits = []
+            for g in _sym7.flatten_guards(guards):
+                if g[0] == "case":
+                    continue
+                for y in walk(g[0]):
+                    if y.get("k") == "call" and (y.get("n") or "").startswith(
+                            "mp_fits_") and y.get("a") \
+                            and show(y["a"][0]) == arg and g[1]:
+                        fits.append(y["n"])
+            if not fits:
+                return
+            bad = [x for x in fits if x != PAIR[n["n"]]]
+            if control:
+                n7ctl += 1 if bad else 0
+                return
+            n7 += 1
+            key = "%s@%s" % (short(f["qn"])[:60], n.get("l"))
+            R.instance("R12.7", key)
+            if bad and PAIR[n["n"]] not in fits:
+                R.violation(
+                    "R12.7", short(f["qn"])[:60], prog.loc(f, n.get("l")),
+                    "%s reads `%s` under the guard %s: the test and the "
+                    "read disagree on signedness, so a value in "
+                    "[2^63, 2^64) passes the guard and is read with the "
+                    "wrong top bit" % (short(f["qn"])[:60], show(n)[:40],
+                                       bad[0]))
+        _sym7.visit_guarded(f["body"], cb7)
+    R.floor("positive control (verif_positive::low_word) recognised",
+            n7ctl, 1)
+
     # R12.6: the complex evaluators use the complex overloads of the
     # functions whose real version has a restricted domain (a real pow/sqrt/
     # log of a negative argument is NaN where the complex value exists)
